@@ -4,12 +4,14 @@ set -e
 export GOFLAGS=-mod=mod GOPROXY=off GOSUMDB=off GOTOOLCHAIN=local
 V=${VERIF_ROOT:-$(cd "$(dirname "$0")/.." && pwd)}
 export V
+R=${VERIF_REPO:-/repo}
+export R
 mkdir -p $V/build
 python3 - <<'PY'
 import json,glob,os
 V=os.environ['V']
 files=sorted(glob.glob(V+'/harness/inject/*.go'))
-ov={"Replace":{ "/repo/internal/verifdrv/"+os.path.basename(f): f for f in files}}
+ov={"Replace":{ os.environ['R']+"/internal/verifdrv/"+os.path.basename(f): f for f in files}}
 json.dump(ov,open(V+'/build/overlay.json','w'),indent=1)
 PY
-cd /repo && go build -tags verif -overlay $V/build/overlay.json -o $V/build/harness ./internal/verifdrv
+cd $R && go build -tags verif -overlay $V/build/overlay.json -o $V/build/harness ./internal/verifdrv
